@@ -73,10 +73,16 @@ func (r *entityReaderWriters) accessorAt(mime string) (EntityReaderWriter, bool)
 	if !ok {
 		// retry with reverse lookup
 		// more expensive but we are in an exceptional situation anyway
-		for k, v := range r.accessors {
-			if strings.Contains(mime, k) {
-				return v, true
+		// take the registered type that occurs first in the value (the longest if several start there)
+		// such that the result does not depend on the iteration order of the map
+		at, found := -1, ""
+		for k := range r.accessors {
+			if i := strings.Index(mime, k); i != -1 && (at == -1 || i < at || (i == at && len(k) > len(found))) {
+				at, found = i, k
 			}
+		}
+		if at != -1 {
+			return r.accessors[found], true
 		}
 	}
 	return er, ok
